@@ -111,6 +111,12 @@ def enumerate_cases(tier, seed):
                                                 "pos": f"mid{k}", "exc": "RuntimeError"}})
                 cases.append({"program": program, "input": inp, "prior": prior, "rng": seed,
                               "fault": {"stage": "natural", "pos": "input", "exc": "natural"}})
+                if program == "gen_coords" and inp == 1 and prior == "present":
+                    cases.append({"program": program, "input": inp, "fault": None, "prior": prior, "rng": seed,
+                                  "inplace": True})
+                    for pos in ("mid1", "mid4"):
+                        cases.append({"program": program, "input": inp, "prior": prior, "rng": seed, "inplace": True,
+                                      "fault": {"stage": "write_gro", "pos": pos, "exc": "RuntimeError"}})
                 # fault-free runs whose output name has another ending, or none
                 for suffix in (".v2", "", ".top"):
                     cases.append({"program": program, "input": inp, "fault": None, "prior": prior, "rng": seed,
@@ -281,7 +287,12 @@ def check(spec, ctx):
         suffix = spec["suffix"]            # the output goes to the path it is given, whatever its ending
     target = outdir / f"result{suffix}"
     sentinel = b"; sentinel content of an older run\n[ nothing ]\n"
-    if prior != "absent":
+    if spec.get("inplace"):
+        # gen_coords refining a structure in place: -c and -o name the same file
+        ispec = gen_coords_input(1)
+        gc.write_gro(target, [tuple(a) for a in ispec["coords"]["atoms"]], ispec["coords"]["box"])
+        sentinel = target.read_bytes()
+    elif prior != "absent":
         target.write_bytes(sentinel)
     if prior == "present_with_backups":
         (outdir / f"#result{suffix}.1#").write_bytes(b"backup one\n")
@@ -308,7 +319,9 @@ def check(spec, ctx):
             if cspec["build"]:
                 (indir / "b.bld").write_text("\n".join(cspec["build"]) + "\n")
                 kwargs["build"] = [indir / "b.bld"]
-            if cspec.get("coords"):
+            if spec.get("inplace"):
+                kwargs["coordpath"] = target
+            elif cspec.get("coords"):
                 gc.write_gro(indir / "in.gro", [tuple(a) for a in cspec["coords"]["atoms"]], cspec["coords"]["box"])
                 kwargs["coordpath"] = indir / "in.gro"
             import signal
